@@ -104,7 +104,25 @@ impl WrappedWrite {
     { unimplemented!() }
 }
 
-/*@type file=src/eeprom/device_provider.rs name=DeviceEeprom subst="<'subdevice>=><'a>@@&'subdevice MainDevice<'subdevice>=>&'a MainDevice" @*/
+/// (`wlog`: GHOST field added to the extracted struct - the register writes issued through this handle, in order; erased at run time)
+/*@type file=src/eeprom/device_provider.rs name=DeviceEeprom subst="<'subdevice>=><'a>@@&'subdevice MainDevice<'subdevice>=>&'a MainDevice@@configured_address: u16,=>configured_address: u16, pub wlog: Ghost<Seq<(u16, Seq<u8>)>>," @*/
+impl WrappedWrite {
+    /// `send` with the ghost log threaded through (same exchange as `send`; the log records register and bytes when it succeeds)
+    #[verifier::external_body]
+    pub async fn send_logged<D: EtherCrabWireWrite>(self, log: &mut Ghost<Seq<(u16, Seq<u8>)>>, maindevice: &MainDevice, data: D) -> (r: Result<(), Error>)
+        ensures
+            r is Ok ==> reg_sent(self.command, data.packed())
+                && exists|a: u16, g: u16| self.command == (Writes::Fpwr { address: a, register: g }) && final(log)@ == old(log)@.push((g, data.packed())),
+            r is Err ==> final(log)@ == old(log)@,
+    { unimplemented!() }
+}
+/// k attempts: each one the data word to 0x0508 FIRST, then the write request for the word address to 0x0502 (the rising edge of
+/// the write strobe stores whatever is in the data register)
+pub open spec fn attempts_log(k: nat, data: Seq<u8>, word: u16) -> Seq<(u16, Seq<u8>)>
+    decreases k
+{
+    if k == 0 { Seq::empty() } else { attempts_log((k - 1) as nat, data, word).push((0x0508u16, data)).push((0x0502u16, sii_write_bytes(word))) }
+}
 
 impl<'a> DeviceEeprom<'a> {
 /*@fn file=src/eeprom/device_provider.rs impl="impl<'subdevice> DeviceEeprom<'subdevice>" name=wait_while_busy subst=".receive::<SiiControl>(self.maindevice)=>.receive_sii(self.maindevice)" timeouts=1 props=C14,C13 attr="#[verifier::loop_isolation(false)] #[verifier::allow_complex_invariants]" __brk0="Result<SiiControl, Error>"
@@ -132,10 +150,13 @@ impl<'a> DeviceEeprom<'a> {
 @closure 0 "|data: &ReceivedPdu|" of=inspect
 @*/
 
-/*@fn file=src/eeprom/device_provider.rs impl="impl EepromDataProvider for DeviceEeprom<'_>" name=write_word props=C14
+/*@fn file=src/eeprom/device_provider.rs impl="impl EepromDataProvider for DeviceEeprom<'_>" name=write_word subst=".send(self.maindevice,=>.send_logged(&mut self.wlog, self.maindevice," props=C14
     ensures
         r is Ok ==> reg_sent(Writes::Fpwr { address: old(self).configured_address, register: 0x0508 }, data@)
             && reg_sent(Writes::Fpwr { address: old(self).configured_address, register: 0x0502 }, sii_write_bytes(start_word)),
+        // ORDER: what this call wrote to the device is k >= 1 attempts, each the data word first and the write request second -
+        // and nothing else
+        r is Ok ==> exists|k: nat| 1 <= k <= 21 && final(self).wlog@ == old(self).wlog@ + #[trigger] attempts_log(k, data@, start_word),
 @entry
     let ghost mut attempts: nat = 0;
 @loop 0
@@ -146,9 +167,11 @@ impl<'a> DeviceEeprom<'a> {
         self.configured_address == old(self).configured_address,
         attempts > 0 ==> reg_sent(Writes::Fpwr { address: self.configured_address, register: 0x0508 }, data@)
             && reg_sent(Writes::Fpwr { address: self.configured_address, register: 0x0502 }, sii_write_bytes(start_word)),
+        self.wlog@ == old(self).wlog@ + attempts_log(attempts, data@, start_word),
     ensures
         // at most 21 attempts, and at least one
         1 <= attempts <= 21,
+        self.wlog@ == old(self).wlog@ + attempts_log(attempts, data@, start_word),
         reg_sent(Writes::Fpwr { address: self.configured_address, register: 0x0508 }, data@)
             && reg_sent(Writes::Fpwr { address: self.configured_address, register: 0x0502 }, sii_write_bytes(start_word)),
     decreases 20 - retry_count
